@@ -687,7 +687,7 @@ class Sim:
 
 # ---------------------------------------------------------------- generators
 
-HEADER_WORDS = ('pool', 'ext', 'fail', 'failfrom', 'cbprobe', 'cbwreset', 'constapi')
+HEADER_WORDS = ('pool', 'ext', 'fail', 'failfrom', 'cbprobe', 'cbwreset', 'constapi', 'relnull', 'farslots')
 
 
 def slots_of(kinds, k):
@@ -817,4 +817,21 @@ def const_variants(cases, every=2):
         if n % every:
             continue
         out.append(Case(c.name + 'k', c.header + ['constapi 1'], c.ops, c.origin))
+    return out
+
+
+def relnull_variants(cases, every=2):
+    """Every `every`-th case with an arelease (and no stray copies) once more with NULL as the out-parameter of
+    cstl_array_release (header relnull 1): the driver reconstructs what would have been handed back from the object's data
+    pointer before and after the call, so model and oracle see the same trace."""
+    from lib.core import Case
+    out, n = [], 0
+    for c in cases:
+        if any(h.split()[0] == 'relnull' for h in c.header):
+            continue
+        if not any(o.split()[0] == 'arelease' for o in c.ops) or any(o.split()[0] == 'straycopy' for o in c.ops):
+            continue
+        n += 1
+        if n % every == 0:
+            out.append(Case(c.name + 'r', c.header + ['relnull 1'], c.ops, c.origin))
     return out
